@@ -307,12 +307,14 @@ def handoffAdm (ns : List Node) (q : ScqId) (invs : List (List Nat)) : List WId 
 
 /-! ## state of the tree layer -/
 
-/-- per worker: `lastInvocation` (path; `none` = nil, while executing) and `stickinessStartingTimes` -/
+/-- per worker: `lastInvocation` (path; `none` = nil, while executing), `stickinessStartingTimes`, and
+whether the worker is enqueued in `lastInvocation.idleSynchronizingWorkers` (`listIndex != -1`) -/
 structure WX where
   scq : ScqId
   id : WId
   last : Option (List Nat)
   sticks : List Nat
+  parked : Bool := false
 deriving Repr, Inhabited
 
 /-- per operation, as `task.operations` holds it (outlives `operationsNameMap`'s entry inside
@@ -399,15 +401,17 @@ def TState.setS (ts : TState) (s : State) : TState := { ts with s := s }
 
 /-- tree part of `worker.dequeue` -/
 def TState.unparkTree (ts : TState) (q : ScqId) (w : WId) : TState :=
-  { ts with nodes := match ts.lastOf q w with
-      | some p => dequeueW ts.nodes q p w
-      | none => ts.nodes }
+  { ts with nodes := (match ts.lastOf q w with
+              | some p => dequeueW ts.nodes q p w
+              | none => ts.nodes),
+            wx := setWX ts.wx q w (fun y => { y with parked := false }) }
 
 /-- tree part of parking in `getNextTask` -/
 def TState.parkTree (ts : TState) (q : ScqId) (w : WId) : TState :=
-  { ts with nodes := match ts.lastOf q w with
-      | some p => parkW ts.nodes q p w
-      | none => ts.nodes }
+  { ts with nodes := (match ts.lastOf q w with
+              | some p => parkW ts.nodes q p w
+              | none => ts.nodes),
+            wx := setWX ts.wx q w (fun y => { y with parked := true }) }
 
 /-- `for i := range t.operations { i.incrementExecutingWorkersCount(bq, w) }` -/
 def TState.incOps (ts : TState) (t : Task) (key : WKey) : TState :=
